@@ -28,6 +28,8 @@ static long nreq;
 static int cur_obj = -1, cur_op = -1;
 static void *decoys[8]; static int ndecoy;
 static int enabled = 1;
+static unsigned min_align = 16;
+void am_set_min_align(unsigned a) { min_align = a; }
 
 void am_reset(void) { nev = 0; nreq = 0; fail_at = -1; cur_obj = cur_op = -1; }
 void am_hard_reset(void) { am_reset(); nblk = 0; ndecoy = 0; }
@@ -54,7 +56,7 @@ static am_event *log_ev(int op, size_t size, void *ptr)
 
 static void *arena_alloc(size_t size, size_t align, int zero, int op)
 {
-    size_t span = (size + PG - 1) / PG * PG;
+    size_t span = (size + 64 + PG - 1) / PG * PG;      /* room for the alignment slack below the block */
     uint8_t *m, *p;
     am_block *b;
     am_event *e;
@@ -65,8 +67,14 @@ static void *arena_alloc(size_t size, size_t align, int zero, int op)
     m = mmap(NULL, span + PG, PROT_READ | PROT_WRITE, MAP_PRIVATE | MAP_ANONYMOUS, -1, 0);
     if (m == MAP_FAILED) { log_ev(op, size, NULL); return NULL; }
     mprotect(m + span, PG, PROT_NONE);
-    if (align < 16) align = 16;
+    if (align == 0) align = min_align;          /* malloc / calloc / realloc: the allocator's own guarantee */
     p = m + span - size;
+    if (align < 16) {
+        /* weakly aligned allocator: the block starts at 8 or 24 modulo 32 (alternating), never on a 16-byte boundary */
+        uintptr_t want = (nblk & 1) ? 24 : 8, a = (uintptr_t)p & ~(uintptr_t)31;
+        p = (uint8_t *)(a + want);
+        if (p > m + span - size) p -= 32;
+    } else
     p = (uint8_t *)((uintptr_t)p & ~(uintptr_t)(align - 1));
     memset(m, 0xD7, span);                       /* garbage unless calloc */
     if (zero) memset(p, 0, size);
@@ -108,6 +116,18 @@ long am_nonzero_live(int obj)
     return tot;
 }
 
+static long slack_bad(const am_block *b)
+{
+    const uint8_t *e = b->ptr + b->size, *lim = b->map + (b->span - PG); long k;
+    for (k = 0; e + k < lim; ++k) if (e[k] != 0xD7) return k;
+    return -1;
+}
+int am_slack_damaged(int obj, long *off)
+{
+    int i;
+    for (i = 0; i < nblk; ++i) if (blk[i].live && blk[i].map && (obj < 0 || blk[i].obj == obj)) { long k = slack_bad(&blk[i]); if (k >= 0) { if (off) *off = k; return 1; } }
+    return 0;
+}
 static void arena_free(void *p)
 {
     am_block *b = find_block(p);
@@ -126,22 +146,23 @@ static void arena_free(void *p)
     if (!b->live) { if (e) e->bad = AM_BAD_DOUBLE; return; }
     for (k = 0; k < b->size; ++k) if (b->ptr[k]) ++nz;
     b->nz_at_free = nz; b->live = 0;
+    if (e && slack_bad(b) >= 0) e->bad = AM_BAD_OVERRUN;       /* bytes after the block (before the guard page) were written */
     if (e) { e->nonzero_at_free = nz; e->nonzero_before = b->nz_before; e->first_nonzero = -1; for (k = 0; k < b->size; ++k) if (b->ptr[k]) { e->first_nonzero = (long)k; break; } }
     mprotect(b->map, b->span, PROT_NONE);        /* quarantine: any later access faults */
 }
 
-void *__wrap_malloc(size_t n) { return monitored() ? arena_alloc(n, 16, 0, AM_MALLOC) : __real_malloc(n); }
+void *__wrap_malloc(size_t n) { return monitored() ? arena_alloc(n, 0, 0, AM_MALLOC) : __real_malloc(n); }
 void *__wrap_calloc(size_t a, size_t b)
 {
     if (!monitored()) return __real_calloc(a, b);
     if (b && a > (size_t)-1 / b) { log_ev(AM_CALLOC, (size_t)-1, NULL); return NULL; }
-    return arena_alloc(a * b, 16, 1, AM_CALLOC);
+    return arena_alloc(a * b, 0, 1, AM_CALLOC);
 }
 void *__wrap_realloc(void *p, size_t n)
 {
     if (!monitored() && !(p && am_in_arena(p, NULL, NULL))) return __real_realloc(p, n);
     {
-        void *q = arena_alloc(n, 16, 0, AM_REALLOC);
+        void *q = arena_alloc(n, 0, 0, AM_REALLOC);
         am_block *b = p ? find_block(p) : NULL;
         if (q && b) memcpy(q, p, b->size < n ? b->size : n);
         if (q && p) arena_free(p);
